@@ -119,3 +119,8 @@ Theorem C13_mio_archived_test_covers_target : forall a t p, MInv a -> In (t, p) 
   is_covered p = true -> exists x, psols p = [x] /\ fitness (psol x) t = 0.
 Proof. exact mio_archived_covers. Qed.
 Print Assumptions C13_mio_archived_test_covers_target.
+
+(* covered (h = 1) exactly for fitness 0: a near miss with a tiny positive fitness is not covered *)
+Theorem C13_mio_h_one_iff_fitness_zero : forall f, 0 <= f -> (hcode f = HMAX <-> f = 0).
+Proof. exact hcode_one_iff_zero. Qed.
+Print Assumptions C13_mio_h_one_iff_fitness_zero.
